@@ -174,8 +174,13 @@ def project_openapi(doc, scn, path):
         params = resolve(doc, schema.get('properties', {}).get('params', {}))
         m = next((x for x in scn['methods'] if (x['fn'] if x['name'] == 'own' else x['name']) == name and x['ep'] == ep), None)
         rs = success_result_schema(doc, op)
+        req_schema = resolve(doc, op.get('requestBody', {}).get('content', {}).get('application/json', {}).get('schema', {}))
+        mprop = resolve(doc, req_schema.get('properties', {}).get('method', {})) if req_schema else {}
+        named = [mprop.get('const')] if 'const' in mprop else list(mprop.get('enum', []))
+        reqname = 'na' if not named else ('own' if named == [name] else 'other:%s' % named)
         entries.append({'fn': m['fn'] if m else 'unknown:' + name, 'name': m['name'] if m else 'unknown', 'ep': ep,
-                        'result': result_kind(doc, rs) if (scn['extractor'] == 'pyd' and rs is not None) else 'na', 'errors': sorted(codes), 'tags': (op.get('tags') or ['none'])[0] if len(op.get('tags') or ['x']) == 1 else 'many',
+                        'result': result_kind(doc, rs) if (scn['extractor'] == 'pyd' and rs is not None) else 'na',
+                        'reqname': reqname, 'errors': sorted(codes), 'tags': (op.get('tags') or ['none'])[0] if len(op.get('tags') or ['x']) == 1 else 'many',
                         'cpref': cp if scn['extractor'] == 'pyd' else 'na'})
     return entries
 
@@ -187,7 +192,7 @@ def project_openrpc(doc, scn):
         sm = next((x for x in scn['methods'] if (x['fn'] if x['name'] == 'own' else x['name']) == m.get('name') and x['ep'] == 'root'), None)
         entries.append({'fn': sm['fn'] if sm else 'unknown:%s' % m.get('name'), 'name': sm['name'] if sm else 'unknown', 'ep': 'root',
                         'result': result_kind(doc, m.get('result', {}).get('schema', {})) if scn['extractor'] == 'pyd' else 'na',
-                        'errors': sorted(e.get('code') for e in m.get('errors', [])),
+                        'reqname': 'na', 'errors': sorted(e.get('code') for e in m.get('errors', [])),
                         'tags': tags[0] if len(tags) == 1 else ('none' if not tags else 'many'),
                         'cpref': 'na'})
     return entries
